@@ -18,7 +18,8 @@ Core Lean only.
 namespace RtcVerif.C04
 
 /-- `sys.float_info.max` = (2 - 2^-52)·2^1023 -/
-def floatMax : Rat := ((2 ^ 1024 - 2 ^ 971 : Nat) : Rat)
+def floatMax : Rat :=
+  179769313486231570814527423731704356798070567525844996598917476803157260780028538760589558632766878171540458953514382464234321326889464182768467546703537516986049910576551282076245490090389328944075868508455133942304583236903222948165808559332123348274797826204144723168738177180919299881250404026184124858368
 
 /-! ## NumPy comparisons on extended values (`nan` compares false) -/
 
